@@ -1,6 +1,6 @@
-(* C05 - property theorems only.  Each is closed by `exact` of a lemma of C05_Proofs.v. *)
+(* C05 - property theorems only.  Each is closed by `exact` of a lemma of C05_Proofs.v / C05_HalfClose.v / C05_Delay.v. *)
 From Coq Require Import List NArith Bool.
-From Dae Require Import C05_Spec C05_Model C05_Proofs.
+From Dae Require Import C05_Spec C05_Model C05_Proofs C05_HCDefs C05_HalfClose C05_Delay.
 From Dae.gen Require Import C05_Extracted.
 Import ListNotations.
 Open Scope N_scope.
@@ -22,49 +22,27 @@ Theorem C05_relay_bytes_intact :
 Proof. exact run_relay_intact. Qed.
 Print Assumptions C05_relay_bytes_intact.
 
-(* Whole connection (handleConn prologue + relay): full statement. *)
-Definition C05_bytes_intact_full : Prop :=
+(* Whole connection (handleConn prologue + relay), every path of the prologue (port 53 or not, every verdict of
+   the DNS parser and of the sniffing parsers, every room offered to the reads, negative cache or not), every
+   script of both sides: the bytes are intact in both directions. *)
+Theorem C05_bytes_intact :
   forall p grace pend prio client server, bytes_intact_stmt p grace pend prio client server.
-
-(* The faithful model falsifies it: a first frame on port 53 that parses as a DNS *response* is Discarded by
-   readDnsMsgFromBufio and the connection is then relayed without it. *)
-Theorem C05_bytes_intact_refuted :
-  exists p grace pend prio client server, ~ bytes_intact_stmt p grace pend prio client server.
-Proof. exact bytes_intact_refuted_proof. Qed.
-Print Assumptions C05_bytes_intact_refuted.
-
-(* Everything else: for every path of the prologue (port 53 or not, sniffing or not, every verdict of the
-   sniffing parsers, every room offered to the reads), every script of both sides, the bytes are intact. *)
-Theorem C05_bytes_intact_partial :
-  forall p grace pend prio client server,
-    p_dns p <> DnsResponse -> bytes_intact_stmt p grace pend prio client server.
-Proof. exact bytes_intact_partial_proof. Qed.
-Print Assumptions C05_bytes_intact_partial.
+Proof. exact bytes_intact_proof. Qed.
+Print Assumptions C05_bytes_intact.
 
 (* No read deadline of dae's protocol detection is armed on the client socket when the relay starts. *)
-Definition C05_no_stale_deadline_full : Prop :=
-  forall p s0, k_dl s0 = None -> k_dl (ps_sock (prologue p s0 0)) = None.
-
-Theorem C05_no_stale_deadline_refuted :
-  exists p s0, k_dl s0 = None /\ k_dl (ps_sock (prologue p s0 0)) <> None.
-Proof. exact no_stale_deadline_refuted_proof. Qed.
-Print Assumptions C05_no_stale_deadline_refuted.
-
-Theorem C05_no_stale_deadline_partial :
-  forall p s0 now0, p_port53 p = false -> k_dl s0 = None -> k_dl (ps_sock (prologue p s0 now0)) = None.
-Proof. exact no_stale_deadline_partial_proof. Qed.
-Print Assumptions C05_no_stale_deadline_partial.
-
-(* what the armed deadline does to a healthy connection (SSH banner to port 53, more data 7 s later) *)
-Theorem C05_stale_deadline_cuts :
-  let o := connection w_p53 c05_half_close_ms false true w_client53 w_server in
-  o_up o = w_ssh /\ o_err o = true /\ o_end o = 5000.
-Proof. exact stale_deadline_cuts_proof. Qed.
-Print Assumptions C05_stale_deadline_cuts.
+Theorem C05_no_stale_deadline :
+  forall p s0 now0,
+    k_dl s0 = None ->
+    match ps_conn (prologue p s0 now0) with
+    | Some _ => k_dl (ps_sock (prologue p s0 now0)) = None
+    | None => True
+    end.
+Proof. exact no_stale_deadline_proof. Qed.
+Print Assumptions C05_no_stale_deadline.
 
 (* The sniff window expiring (or the client ending its stream while the parser wants more) leaves no error
-   behind in the reader: for every sequence of parser verdicts, read sizes, stack below and script.
-   (Refuted before the repair 9ef4b71 of Sniffer.dataError; the former witness is the example below.) *)
+   behind in the reader: for every sequence of parser verdicts, read sizes, stack below and script. *)
 Theorem C05_sniff_leaves_no_timeout_error :
   forall answers dl buf c s now buf' derr c' s' t spin,
     sniff_rounds answers dl buf c s now = (buf', derr, c', s', t, spin) ->
@@ -72,26 +50,61 @@ Theorem C05_sniff_leaves_no_timeout_error :
 Proof. exact sniff_rounds_no_timeout. Qed.
 Print Assumptions C05_sniff_leaves_no_timeout_error.
 
+(* Half-close and grace, against the spec: for every path of the prologue that hands the connection to the relay
+   (every wrapper stack it can build), every time-ordered script of both sides, every grace period > 0, either
+   TIOCINQ answer and either goroutine interleaving, the outcome IS the expectation of the spec: each side
+   receives exactly the chunks that arrive before the cut (the other side's end of stream + grace, if that came
+   first), each end of stream is passed on as a clean write-shutdown after all its bytes exactly when it is seen
+   before the cut, and the connection stays up exactly when no end of stream was seen. *)
+Theorem C05_half_close :
+  forall p grace pend prio client server,
+    wf_side client -> wf_side server -> 0 < grace ->
+    let o := connection p grace pend prio client server in
+    let x := expect grace (o_start o) client server in
+    o_handled_dns o = false ->
+    o_up o = x_up x /\ o_down o = x_down x /\
+    o_up_shut o = x_up_shut x /\ o_down_shut o = x_down_shut x /\ o_alive o = x_alive x.
+Proof. exact half_close_proof. Qed.
+Print Assumptions C05_half_close.
+
+(* Detection delays the connection by no more than the sum of the windows of the stages that ran (C05_Spec). *)
+Theorem C05_detection_delay_bounded :
+  forall (p : pcase) (s0 : sock) (now0 : N),
+    let ps := prologue p s0 now0 in
+    ps_now ps <= now0 + allowed_delay c05_dns_first_timeout_ms (p_sniff_ms p)
+                                      (ps_ran_dns ps) (ps_ran_prefetch ps) (ps_ran_sniff ps)
+    /\ now0 <= ps_now ps.
+Proof. exact delay_bounded_proof. Qed.
+Print Assumptions C05_detection_delay_bounded.
+
+(* Non-vacuity / regression examples: the inputs that refuted the full statements before the repairs. *)
+Example C05_nonvacuous_port53_fallback :
+  let o := connection w_p53 c05_half_close_ms false true w_client53 w_server in
+  o_start o = 5000 /\ o_dl_at_start o = None /\ o_up o = w_ssh ++ [1;2;3] /\ o_up_shut o = true
+  /\ o_down o = [65;66;67] /\ o_down_shut o = true /\ o_err o = false.
+Proof. exact port53_fallback_example. Qed.
+
+Example C05_nonvacuous_dns_response :
+  let o := connection (mkP 53 1000 false 2 false DnsResponse []) 10000 false true
+                      (mkSide [mkChunk 0 w_dns_response] (Some 100)) (mkSide [] (Some 50)) in
+  o_up o = w_dns_response /\ o_up_shut o = true /\ o_down_shut o = true /\ o_err o = false.
+Proof. exact dns_response_example. Qed.
+
 Example C05_nonvacuous_sniff_timeout :
   let o := connection w_psniff c05_half_close_ms false true w_client_tls w_server in
   o_start o = 1000 /\ o_dl_at_start o = None /\ o_up o = w_tls_part ++ [9;9;9] /\ o_up_shut o = true /\ o_err o = false.
 Proof. exact sniff_timeout_harmless_example. Qed.
 
-(* Each end of stream is passed on as a clean write-shutdown exactly when the spec expects it. *)
-Definition C05_half_close_full : Prop :=
-  forall p grace pend prio client server, half_close_stmt p grace pend prio client server.
+Example C05_nonvacuous_wrapped_half_close :
+  let o := connection (mkP 443 1000 false 2 false DnsErr [(false, 4096)]) c05_half_close_ms false true
+                      (mkSide [mkChunk 0 w_http] None) (mkSide [mkChunk 110 [65;66;67]] (Some 210)) in
+  o_down o = [65;66;67] /\ o_down_shut o = true /\ o_cw_down o = (1, 210, 3) /\ o_end o = 10210 /\ o_err o = true.
+Proof. exact wrapped_half_close_example. Qed.
 
-(* refuted: behind a wrapper (ConnSniffer / prefixedConn / bufioConn) the client conn has no CloseWrite *)
-Theorem C05_half_close_refuted :
-  exists p grace pend prio client server, ~ half_close_stmt p grace pend prio client server.
-Proof. exact half_close_refuted_proof. Qed.
-Print Assumptions C05_half_close_refuted.
-
-(* Non-vacuity: a plain connection with both half-closes, and the grace period cutting late server data. *)
 Example C05_nonvacuous_half_close :
   let client := mkSide [mkChunk 0 [1;2;3]; mkChunk 300 [4;5]] (Some 400) in
   let server := mkSide [mkChunk 110 [7;8]; mkChunk 9010 [9]] (Some 9510) in
-  let o := connection (mkP false false 1000 DnsErr []) c05_half_close_ms false true client server in
+  let o := connection (mkP 22 1000 false 2 false DnsErr []) c05_half_close_ms false true client server in
   o_up o = [1;2;3;4;5] /\ o_down o = [7;8;9] /\ o_up_shut o = true /\ o_down_shut o = true
   /\ o_cw_up o = (1, 400, 5) /\ o_cw_down o = (1, 9510, 3) /\ o_err o = false.
 Proof. exact half_close_plain_example. Qed.
@@ -99,6 +112,6 @@ Proof. exact half_close_plain_example. Qed.
 Example C05_nonvacuous_grace :
   let client := mkSide [mkChunk 0 [1]] (Some 400) in
   let server := mkSide [mkChunk 10390 [7]; mkChunk 10410 [8]] None in
-  let o := connection (mkP false false 1000 DnsErr []) c05_half_close_ms false true client server in
+  let o := connection (mkP 22 1000 false 2 false DnsErr []) c05_half_close_ms false true client server in
   o_down o = [7] /\ o_end o = 10400 /\ o_err o = true /\ o_up_shut o = true.
 Proof. exact grace_example. Qed.
